@@ -131,7 +131,9 @@ def configs(tier, seed):
     base = dict(family='gauss', n_dim=2, n_live=60, n_batch=20, n_update=20, n_networks=0, blob='float', seed=11 + seed % 1000, n_shell=10, n_eff=300,
                 neural_network_kwargs=dict(hidden_layer_sizes=(12, 6), max_iter=100))
     cs = [dict(base), dict(base, family='twomode', blob='none', n_batch=12, n_live=50, prior_identity=True, lik_inplace=True),
-          dict(base, n_networks=1, n_live=80, family='periodic', periodic=[0], n_dim=3, blob='two', discard_at_end=True)]
+          dict(base, n_networks=1, n_live=80, family='periodic', periodic=[0], n_dim=3, blob='two', discard_at_end=True),
+          # a likelihood plateau (-inf half space) during exploration, and non-nested bounds whose transfer candidates are used up over several batches
+          dict(base, family='halfspace', n_dim=2, blob='float', n_batch=10, n_live=50), dict(base, family='funnel', n_dim=2, blob='vec3', n_batch=10, n_live=60, n_eff=200)]
     if tier == 'thorough':
         cs += [dict(base, family='halfspace', n_dim=3, blob='vec3', n_batch=30), dict(base, family='funnel', n_dim=3, n_live=100, n_batch=60, blob='int'),
                dict(base, n_live=30, n_batch=6, n_update=8, n_eff=100, blob='none', prior_identity=True, lik_inplace=True)]
